@@ -1,3 +1,79 @@
 import KsiVerif.Util.DriverMain
-open KsiVerif
-def main : IO Unit := runDriver (fun i _ => "skip no-model-yet " ++ i)
+import KsiVerif.Model.Alloc
+/-! Model driver for C19 — protocol in harness/exec_c19.c. Every entry of a sweep is judged by the property itself
+(`entrySpec`); for the operations that have a model with an explicit heap (`list`, `tlvp`) the number of allocations of the
+fault-free run and the status under every single fault are compared with the model's. -/
+open KsiVerif KsiVerif.Tlv
+
+/-- one experiment: fault index (or set label), status, faults fired, result equals the fault-free one, status of the repeat,
+its result equals, blocks still allocated at the end -/
+structure Entry where
+  k : String
+  st : String
+  fired : Nat
+  same : Bool
+  st2 : String
+  same2 : Bool
+  leak : Nat
+
+def parseEntry (w : String) : Option Entry :=
+  match w.splitOn ":" with
+  | [k, st, fired, same, st2, same2, leak] =>
+    match fired.toNat?, leak.toNat? with
+    | some f, some l => some ⟨k, st, f, same == "E", st2, same2 == "E", l⟩
+    | _, _ => none
+  | _ => none
+
+/-- the property on one experiment, `st0` being the status of the fault-free run -/
+def entrySpec (st0 : String) (e : Entry) : Option String :=
+  if e.leak != 0 then some s!"fault-{e.k}:{e.leak}-blocks-of-the-SDK-still-allocated-after-everything-was-freed"
+  else if e.fired == 0 && (e.st != st0 || !e.same) then some s!"fault-{e.k}:no-allocation-failed-yet-status-{e.st}-or-result-differs-from-the-fault-free-run"
+  else if e.fired != 0 && e.st == "0" && !e.same then some s!"fault-{e.k}:reported-success-with-a-result-other-than-the-fault-free-one"
+  else if e.fired != 0 && e.st == "0" && st0 != "0" then some s!"fault-{e.k}:reported-success-where-the-fault-free-run-fails"
+  else if e.st2 != st0 || !e.same2 then some s!"fault-{e.k}:the-repeat-without-fault-gives-status-{e.st2}-{if e.same2 then "same" else "another"}-result-(fault-free:{st0})"
+  else none
+
+def field (hd : List String) (name : String) : String :=
+  ((hd.find? (·.startsWith (name ++ "="))).map fun w => (w.drop (name.length + 1)).toString).getD "?"
+
+def bucket (n : Nat) : String :=
+  if n == 0 then "0" else if n < 10 then "<10" else if n < 100 then "<100" else if n < 1000 then "<1000" else ">=1000"
+
+def handle (inp out : String) : String :=
+  match words inp with
+  | "sw" :: mode :: op :: args =>
+    match out.splitOn " |" with
+    | [head, ents] =>
+      let hd := words head
+      let st0 := field hd "S0"
+      let n := (field hd "N").toNat?.getD 0
+      if st0 == "-2" then "skip setup-failed" else
+      let es := (words ents).map parseEntry
+      if es.any Option.isNone then "skip malformed-entry" else
+      let es := es.filterMap id
+      -- the reference run itself: repeat equal, nothing left allocated
+      let refViol : Option String :=
+        if field hd "L0" != "0" then some s!"fault-free-run-leaves-{field hd "L0"}-blocks-allocated"
+        else if field hd "R0" != s!"{st0}:E" then some s!"fault-free-run-repeated-gives-{field hd "R0"}-instead-of-{st0}:E"
+        else none
+      match refViol.orElse (fun _ => es.findSome? (entrySpec st0)) with
+      | some why => s!"specfail sw:{op} {why}"
+      | none =>
+        let fired := (es.filter (·.fired != 0)).length
+        let survived := (es.filter fun e => e.fired != 0 && e.st == "0").length
+        let modeK := (mode.splitOn ":").headD "?"
+        match Alloc.modelSweep op args with
+        | some (mn, _) =>
+          if mn != n then s!"diff sw:{op} allocations-of-the-fault-free-run:impl={n}:model={mn}"
+          else
+            let bad := es.find? fun e => modeK != "multi" && (match e.k.toNat? with
+              | some k => (match Alloc.modelSweep op args with | some (_, f) => (f k) != (e.st == "0") | none => false)
+              | none => false)
+            match bad with
+            | some e => s!"diff sw:{op} fault-{e.k}:impl-status={e.st}:model-says-{if e.st == "0" then "error" else "ok"}"
+            | none => s!"ok sw:{op}:{modeK}:modelled:N{bucket n}:st{st0}:fired{bucket fired}:inessential{bucket survived}"
+        | none => s!"ok sw:{op}:{modeK}:N{bucket n}:st{st0}:fired{bucket fired}:inessential{bucket survived}"
+    | _ => if out.startsWith "BAD-OP" then "skip unknown-op" else "skip malformed-output"
+  | _ => "skip unknown-op"
+
+def main : IO Unit := runDriver handle
